@@ -106,6 +106,8 @@ class ApiFuzzer:
         self.depth = 0
         self.exceptions: Dict[str, int] = {}
         self.system_errors: List[str] = []
+        self.flat_limit = 0
+        self.segment_ends: List[int] = []
 
     def addr(self) -> int:
         r = self.rng.random()
@@ -154,12 +156,21 @@ class ApiFuzzer:
             self.mem = mem
             self.w = w
             self.segments_total = 0
+            self.flat_limit = flat
+            self.segment_ends = []
 
     def op_add_segment(self) -> None:
         start, length = self.addr(), self.length()
         if self.rng.random() < 0.6:
             start, length = self.rng.choice([0, 0, 2, 8, 16, 100]), self.rng.choice([2, 4, 8, 32, 600])
-        # bounded total so that the default flat window (2^23 words) is the worst real allocation
+        # bounded total so that the default flat window (2^23 words) is the worst real allocation: a segment that would stretch
+        # the effective flat window into the gigabytes (between 2^24 and 2^45 words) is not added
+        limit = self.flat_limit or (1 << 23)
+        ends = self.segment_ends + ([min(start + length, limit)] if 0 <= start < limit else [])
+        if (1 << 24) < max(ends or [0]) < (1 << 45):
+            self.counters['segments_not_added_flat_window_in_gigabytes'] = self.counters.get('segments_not_added_flat_window_in_gigabytes', 0) + 1
+            return
+        self.segment_ends = ends
         self.note('add_segment', start, length)
         self.call('add_segment', lambda: self.mem.add_segment(start, length))
 
@@ -206,7 +217,12 @@ class ApiFuzzer:
     def op_reinit(self) -> None:
         w = self.rng.choice([8, 16, 32, 64])
         self.note('reinit', w)
-        if self.call('reinit', lambda: self.mem.__init__(w, flat_max_words=self.safe_flat_max())) is None:
+        flat = self.safe_flat_max()
+        # (whether the re-initialisation succeeds or raises, the larger of the two windows is assumed from here on)
+        self.flat_limit = max(self.flat_limit or (1 << 23), flat or (1 << 23))
+        if (1 << 24) < max([min(e, self.flat_limit) for e in self.segment_ends] or [0]) < (1 << 45):
+            return
+        if self.call('reinit', lambda: self.mem.__init__(w, flat_max_words=flat)) is None:
             self.w = w
 
     def op_run(self) -> None:
@@ -304,6 +320,8 @@ class ApiFuzzer:
         self.note('program', case, flat)
         self.mem = self.core.Memory(case['w'], flat_max_words=flat)
         self.w = case['w']
+        self.flat_limit = flat
+        self.segment_ends = [min(s0 + n0, flat or (1 << 23)) for s0, n0 in case['segments'] if s0 < (flat or (1 << 23))]
         for s, n in case['segments']:
             self.call('add_segment', lambda s=s, n=n: self.mem.add_segment(s, n))
         for k, v in case['mem']:
